@@ -725,7 +725,13 @@ impl Stringify for Value {
                 ) -> FmtResult {
                     match expr {
                         Expression::LitStr { value, location } => {
-                            stringifier.write_token(&escape_html_body(value), None, location)?;
+                            let mut quoted = escape_html_body(value).into_owned();
+                            if quoted.ends_with('{') {
+                                // (a binding may follow: `{` + `{{` would be read back differently)
+                                quoted.pop();
+                                quoted.push_str("&#123;");
+                            }
+                            stringifier.write_token(&quoted, None, location)?;
                             return Ok(());
                         }
                         Expression::ToStringWithoutUndefined { value, location } => {
